@@ -1085,6 +1085,61 @@ fn check_cull_small_in(bw: u32, bh: u32, cx: u32, cy: u32, size: f32, shape: usi
     r.nontrivial(); r.h("cull-small:judged");
 }
 
+/// Culling of slivers whose area is below the f32 resolution of the products in a cross product, yet not zero: the three
+/// screen positions (pixel-centre-aligned end points on a 1024 x 1024 frame, the middle vertex a few ulps off the line; all
+/// exactly representable, also after the viewport transform) have an exact orientation, and that orientation - not the
+/// rounding of a product - decides which of the two vertex orders survives. Judged on prims.o (whether fragments appear
+/// is C04's business).
+fn check_cull_sliver(i: u64, r: &mut Report) { check_cull_sliver_k(i % 8, i / 8 % 4096, i / 32768, i, r) }
+
+fn check_cull_sliver_k(pair: u64, k: u64, nbr: u64, i: u64, r: &mut Report) {
+    // end points A, C (eight pairs, off-lattice directions); the middle vertex B = the f32 point nearest to A + t (C - A) for
+    // t = k / 4096 (k = 1..4095), and its eight bit-neighbours in x and y: B is within an ulp of the line, so that the exact
+    // area is of the order of ulp(B) |AC| - at or below the resolution of the single-precision products of a cross product.
+    // Candidates are kept where the single-precision formula v.x u.y - v.y u.x vanishes (or has the wrong sign) although the
+    // exact area does not: a harness-side filter on the inputs, not an oracle.
+    let ends = [((300.5f32, 400.5f32), (701.75f32, 778.0f32)), ((1000.25, 300.5), (280.5, 911.125)), ((511.5, 512.5), (900.0, 260.25)), ((260.0, 260.0), (1010.5, 1000.25)), ((333.3, 444.4), (888.8, 999.9)), ((1001.0, 1002.0), (300.0, 299.0)), ((400.0, 900.5), (900.5, 400.0)), ((256.5, 700.25), (1020.0, 690.5))];
+    let (a0, c0) = ends[pair as usize];
+    if k == 0 { return; }
+    let nb = nbr as i32; // 0..9: 0 = B itself, 1..4 = x -2,-1,+1,+2 ulp, 5..8 = y likewise
+    let tt = k as f32 / 4096.0;
+    let mut b0 = (a0.0 + tt * (c0.0 - a0.0), a0.1 + tt * (c0.1 - a0.1));
+    let bump = |c: f32, d: i32| f32::from_bits((c.to_bits() as i32 + d) as u32);
+    if (1..=4).contains(&nb) { b0.0 = bump(b0.0, [-2, -1, 1, 2][(nb - 1) as usize]); }
+    if (5..=8).contains(&nb) { b0.1 = bump(b0.1, [-2, -1, 1, 2][(nb - 5) as usize]); }
+    let (dx, dy, m, j, nud, on_y) = (0i32, 0i32, k as i32, nb, 0i32, false);
+    let _ = (dx, dy, nud, on_y);
+    {
+        let (v, u) = ((b0.0 - a0.0, b0.1 - a0.1), (c0.0 - a0.0, c0.1 - a0.1));
+        let single = v.0 * u.1 - v.1 * u.0;
+        let exact = (b0.0 as f64 - a0.0 as f64) * (c0.1 as f64 - a0.1 as f64) - (b0.1 as f64 - a0.1 as f64) * (c0.0 as f64 - a0.0 as f64);
+        if exact == 0.0 || (single != 0.0 && (single > 0.0) == (exact > 0.0)) { return; }
+        r.h(if single == 0.0 { "cull-sliver:single-precision-cross-product-vanishes" } else { "cull-sliver:single-precision-cross-product-has-the-wrong-sign" });
+    }
+    r.eval();
+    let ndc = |p: (f32, f32)| [p.0 / 512.0 - 1.0, p.1 / 512.0 - 1.0, 0.0, 1.0];
+    let t = STri { v: [ndc(a0), ndc(b0), ndc(c0)], a: PERMS[(i % 6) as usize] };
+    let vp = (0u32, 0u32, 1024u32, 1024u32);
+    // exact orientation of the (exactly representable) screen positions
+    let area = { let p: Vec<(f64, f64)> = [a0, b0, c0].iter().map(|q| (q.0 as f64, q.1 as f64)).collect(); (p[1].0 - p[0].0) * (p[2].1 - p[0].1) - (p[1].1 - p[0].1) * (p[2].0 - p[0].0) };
+    if area == 0.0 { r.h("cull-sliver:exactly-collinear"); return; }
+    let case = || obj! {"kind" => "cull-sliver", "i" => i};
+    let tag = format!("A{a0:?} C{c0:?}|B at t={m}/4096, neighbour {j}: {b0:?}");
+    let rev = STri { v: [t.v[0], t.v[2], t.v[1]], a: [t.a[0], t.a[2], t.a[1]] };
+    for (order, tri, ar) in [("abc", &t, area), ("acb", &rev, -area)] {
+        for (mode, name) in [(Some(FaceCull::Back), "Back"), (Some(FaceCull::Front), "Front"), (None, "None")] {
+            let o = match render_scene(&Scene { tris: vec![tri.clone()], bw: 1024, bh: 1024, vp }, None, Door::Render, TargetKind::ColorOnly, &Context { face_cull: mode, ..Context::default() }, Discard::Never, None) { Ok(o) => o, Err(p) => { r.violation(format!("render-panic|cull-sliver|{tag}"), p, case()); return; } };
+            let back = ar > 0.0;
+            let want = match mode { None => 1, Some(FaceCull::Back) => (!back) as usize, Some(FaceCull::Front) => back as usize };
+            if o.stats.prims.o != want {
+                r.violation(format!("cull-sliver|{name}|{}|{tag}", if want == 1 { "culled-though-facing" } else { "drawn-though-culled" }), format!("sliver with exact on-screen signed area {ar:.3e} px^2 (order {order}), face_cull {name}: prims.o = {} but {} - the other vertex order {}", o.stats.prims.o, if want == 1 { "it faces the viewer under this mode" } else { "it is to be culled under this mode" }, "must be the one treated the opposite way"), case());
+                return;
+            }
+        }
+    }
+    r.nontrivial();
+}
+
 fn check_cull(t: &STri, bw: u32, bh: u32, vp: (u32, u32, u32, u32), kind: TargetKind, r: &mut Report) {
     // one triangle, both vertex orders, three cull modes
     r.eval();
@@ -1279,6 +1334,8 @@ fn run_config(cfg: &Cfg) -> ! {
         let (t, v, k) = (&tris[(i % nt) as usize], cvps[(i / nt % 6) as usize], i / nt / 6);
         check_cull(t, v.0, v.1, v.2, [TargetKind::Owned, TargetKind::ColorOnly][k as usize], r);
     }));
+    // (quick: every fifth parameter value)
+    if quick { rep.merge(par_range(cfg, 8 * 820 * 9, |j, r| { let (pair, k, nbr) = (j % 8, (j / 8 % 820) * 5 + 1, j / 6560); check_cull_sliver_k(pair, k, nbr, pair + 8 * k + 32768 * nbr, r) })); } else { rep.merge(par_range(cfg, 8 * 4096 * 9, check_cull_sliver)); }
     rep.merge(par_range(cfg, 9 * 6, |i, r| check_solid_culling((i % 9) as usize, (i / 9) as usize, r)));
     // triangles of 1/2 .. 1/512 px around every pixel centre of the 8x8 frame x 3 shapes x 2 targets
     // ... and far from the screen origin of a 1920 x 1080 frame (non-lattice corners: sizes 0.15 .. 0.7 px)
@@ -1326,6 +1383,7 @@ fn main() {
                 "order" | "painter" => explore_order(&scene_from(c.get("scene").unwrap()), r, 0, if c.get("discard").and_then(|j| j.as_str()) == Some("Parity") { Discard::Parity } else { Discard::Never }),
                 "config" => check_config_door(&scene_from(c.get("scene").unwrap()), c.get("flags").unwrap().as_u64().unwrap() as u32, match c.get("discard").and_then(|j| j.as_str()).unwrap_or("") { "Always" => Discard::Always, "Parity" => Discard::Parity, _ => Discard::Never }, kind(c), match c.get("door").and_then(|j| j.as_str()).unwrap_or("") { "Batch" => Door::Batch, "Camera" => Door::Camera, _ => Door::Render }, r),
                 "depth-pred" => check_depth_predicate(&scene_from(c.get("scene").unwrap()), kind(c), match c.get("door").and_then(|j| j.as_str()).unwrap_or("") { "Batch" => Door::Batch, "Camera" => Door::Camera, _ => Door::Render }, c.get("shift").and_then(|j| j.as_u64()).unwrap_or(0) as usize, r),
+                "cull-sliver" => check_cull_sliver(c.get("i").unwrap().as_u64().unwrap(), r),
                 "prepass" => check_depth_prepass(&scene_from(c.get("scene").unwrap()), c.get("id").and_then(|j| j.as_u64()).unwrap_or(0), r),
                 "ortho-depth" => check_ortho_depth(c.get("i").unwrap().as_u64().unwrap(), r),
                 "accum" => { let pool = order_pool(); check_accumulation(&scene_from(c.get("scene").unwrap()), 0, &pool[10], r) }
